@@ -21,7 +21,7 @@ META = {
     "compound step; non-trivial = ploidy >= 2 and positive posterior",
     "bound": {
         "quick": "H<=4, P<=4; freqs in {None, flat, skewed, zero-first, zero-last}; F in {0,0.2,0.7}; compound matrix for P<=3,H<=3 (+P=4,H=2)",
-        "thorough": "H<=5, P<=6 (Gibbs/MH); compound matrix up to P=4,H=4",
+        "thorough": "H<=5, P<=6 (Gibbs/MH); compound matrix up to (H,P) = (5,4), (3,5), (2,6)",
     },
     "assumptions": [
         "Monte-Carlo error size between call and call-exact is not measured; stationarity + positive edges are",
@@ -58,7 +58,7 @@ def plan(tier, seed):
                     jobs.append(("slot", H, P, fname, F, seed, math.comb(H + P - 1, P) * P * H))
     cm = [(H, P) for H in (2, 3) for P in (1, 2, 3)] + [(2, 4)]
     if tier == "thorough":
-        cm += [(3, 4), (4, 2), (4, 3), (4, 4), (5, 2), (5, 3)]
+        cm += [(3, 4), (4, 2), (4, 3), (4, 4), (5, 2), (5, 3), (5, 4), (3, 5), (2, 6), (2, 5)]
     else:
         cm += [(4, 2), (4, 3)]
     for H, P in cm:
